@@ -249,6 +249,11 @@ def repeat_a_sibling(rng, d):
     for i in rng.choice(ops):
         n = n["ch"][i]
     i, j = rng.sample(range(len(n["ch"])), 2)
+    if rng.random() < 0.6:
+        # rather the larger of the two is the one repeated (an operand that has operands of its own)
+        size = [sum(1 for _ in common.tree_nodes(c)) for c in n["ch"]]
+        if size[j] > size[i]:
+            i, j = j, i
     n["ch"][j] = copy.deepcopy(n["ch"][i])
     return d2
 
